@@ -16,6 +16,10 @@ import Chrono.Model.TextFormsExt
   * `tx.<type>.parse x<text>`            `FromStr` alone (type ∈ date, time, ndt, dtf, dtu, off)
   * `tx.dtf.local <yof> <secs> <frac> <off>`  `naive_utc().checked_add_offset(offset)`: the wall clock
                                           if it is a `NaiveDate` → `some <yof> <secs> <frac>` | `none` | `panic`
+  * `tx.dtl <yof> <secs> <frac> <off>`   `DateTime<Local>` holding that UTC reading, `<off>` being the
+                                          offset the system zone gave it; `FromStr for DateTime<Local>`
+                                          with the zone answering `<off>` (exact whenever the text reads
+                                          back as the same instant)
   The `Display` column of `tx.date` / `tx.time` / `tx.off` runs the models of the `Display` impls
   (`date_display`, `time_display`, `offset_display`); `NaiveTime`'s `FromStr` is the stateful
   `time_from_str_st` (Model/TextFormsExt.lean).
@@ -93,6 +97,12 @@ def handle (op : String) (args : List String) : Option String :=
         let p (s : List Nat) := showOptNatIdx ((Month.parse s).map Month.toNat)
         s!"{hexEncode (month_debug m)} {hexEncode m.name} {p (month_debug m)} {p m.name}"
       | none => bad)
+  | "tx.dtl", [y, s, f, o] => some (match ints? [y, s, f, o] with
+      | some [y, s, f, o] =>
+        let z : Zoned := ⟨⟨⟨y⟩, ⟨s, f⟩⟩, o⟩
+        let rd (t : List Nat) : String := showRP showZ (local_from_str (fun _ => o) t)
+        s!"{both (local_dt_debug z) rd} | {both (local_dt_display z) rd}"
+      | _ => bad)
   | "tx.dtf.local", [y, s, f, o] => some (match ints? [y, s, f, o] with
       | some [y, s, f, o] =>
         (match NaiveDT.checked_add_offset ⟨⟨y⟩, ⟨s, f⟩⟩ o with
